@@ -370,7 +370,7 @@ class Explorer:
         if k == 'ref' and 'id' in rhs and rhs['id'] in self.tracked:
             return env.get(('v', rhs['id']), ('?',))
         if k == 'str':
-            return ('nz',)
+            return ('nz', rhs.get('v'))        # a string literal: non-NULL, and we remember which
         if k == 'un' and rhs['op'] == '&':
             return ('nz',)
         if k == 'un' and rhs['op'] == '!':
